@@ -338,10 +338,28 @@ def stream_real(ctx: Ctx) -> Stream:
 # search: the laws on the real code
 
 
+def _law_violation(finder: Any, root: Any, walk: list[tuple[str, Any]], pf: dict[str, Any]) -> str | None:
+	from rogw.tranp.syntax.ast.cache import EntryCache
+	if len(pf) != len(walk):
+		return f'full_pathfy has {len(pf)} paths for {len(walk)} entries'
+	if list(pf.keys()) != [p for p, _ in walk]:
+		return 'full_pathfy order/paths differ from the document-order walk'
+	for p, e in walk:
+		got = finder.pluck(root, p)
+		if not same_entry(got, e) or not same_entry(pf[p], e):
+			return f'pluck({p}) is not the entry at that position'
+	cache: Any = EntryCache()
+	for p, e in pf.items():
+		cache.add(p, e)
+	for i, (p, _) in enumerate(walk):
+		if cache.index_of(p) != i:
+			return f'id of {p} is {cache.index_of(p)}, document-order rank is {i}'
+	return None
+
+
 def search_laws(ctx: Ctx) -> SearchResult:
 	from rogw.tranp.syntax.ast.entry import EntryOfDict
 	from rogw.tranp.syntax.ast.finder import ASTFinder
-	from rogw.tranp.syntax.ast.cache import EntryCache
 
 	rng = ctx.sub_rng('laws')
 	res = SearchResult('bijection laws on real ASTFinder/EntryCache vs an independent tree walk')
@@ -364,24 +382,10 @@ def search_laws(ctx: Ctx) -> SearchResult:
 		if sig not in seen:
 			seen.add(sig)
 		bad: str | None = None
-		if len(pf) != len(walk):
-			bad = f'full_pathfy has {len(pf)} paths for {len(walk)} entries'
-		elif list(pf.keys()) != [p for p, _ in walk]:
-			bad = 'full_pathfy order/paths differ from the document-order walk'
-		else:
-			for p, e in walk:
-				got = finder.pluck(root, p)
-				if not same_entry(got, e) or not same_entry(pf[p], e):
-					bad = f'pluck({p}) is not the entry at that position'
-					break
-			if bad is None:
-				cache: Any = EntryCache()
-				for p, e in pf.items():
-					cache.add(p, e)
-				for i, (p, _) in enumerate(walk):
-					if cache.index_of(p) != i:
-						bad = f'id of {p} is {cache.index_of(p)}, document-order rank is {i}'
-						break
+		try:
+			bad = _law_violation(finder, root, walk, pf)
+		except Exception as e:  # noqa: BLE001 - the laws say these calls succeed: an exception is a violation, not a harness failure
+			bad = f'real code raised {exc_enum(e)} while checking the addressing laws: {str(e)[:200]}'
 		if bad:
 			res.findings.append(Finding(key='bijection', what=bad, replay={'tree': name, 'sexp': trees.entry_sexp(root)[:20000]}))
 			break
@@ -456,16 +460,114 @@ def search_resolve_order(ctx: Ctx) -> SearchResult:
 	return res
 
 
+def search_queries(ctx: Ctx) -> SearchResult:
+	"""Parent/children/siblings/ancestor of one shared Nodes instance, after arbitrary query histories, against an
+	independent computation from the tree walk (the property: queries agree with each other and with the tree)."""
+	from rogw.tranp.syntax.ast.entry import EntryOfDict
+	from rogw.tranp.syntax.ast.query import Query
+	from rogw.tranp.syntax.node.node import Node
+
+	rng = ctx.sub_rng('queries')
+	res = SearchResult('Nodes queries after random histories vs independent tree walk')
+	seen = set()
+	for i in range(ctx.scale(60, 800)):
+		t = trees.gen_dict_tree(rng, 2 + i % 4, 2 + i % 5)
+		root = EntryOfDict(t)
+		walk = trees.walk_entries(root)
+		paths = [p for p, _ in walk]
+		pset = set(paths)
+		tags_all = ['root', '__empty__', *trees.TAG_POOL]
+		resolvable = [tg for tg in tags_all if rng.random() < 0.6]
+		table = [(tg, [(f'K{j}', 'always')]) for j, tg in enumerate(resolvable)]
+		di = make_di(root, table, ('T', 'always'))
+		nodes = di.resolve(Query[Node])
+
+		def elems(p: str) -> list[str]:
+			return p.split('.')
+
+		def tag_of(el: str) -> str:
+			return el.split('[')[0]
+
+		def expect(kind: str, p: str, tag: str) -> str:
+			es = elems(p)
+			if kind == 'children':
+				return 'ok ' + ','.join(q for q in paths if q.startswith(p + '.') and len(elems(q)) == len(es) + 1)
+			if kind == 'siblings':
+				if len(es) < 2:
+					return 'Errors.NodeNotFound'
+				up = '.'.join(es[:-1])
+				return 'ok ' + ','.join(q for q in paths if q.startswith(up + '.') and len(elems(q)) == len(es))
+			if kind == 'parent':
+				for k in range(len(es) - 1, 0, -1):
+					if tag_of(es[k - 1]) in resolvable:
+						return 'ok ' + '.'.join(es[:k])
+				return 'Errors.NodeNotFound'
+			for k in range(len(es), 0, -1):
+				if tag_of(es[k - 1]) == tag:
+					return 'ok ' + '.'.join(es[:k])
+			return 'ValueError'
+
+		history: list[tuple[str, str, str]] = []
+		bad = None
+		for _ in range(40):
+			kind = rng.choice(['children', 'siblings', 'parent', 'ancestor', 'ancestor'])
+			p = rng.choice(paths)
+			tag = tag_of(rng.choice(elems(p))) if rng.random() < 0.8 else rng.choice(tags_all)
+			history.append((kind, p, tag))
+			try:
+				if kind == 'children':
+					got = 'ok ' + ','.join(n.full_path for n in nodes.children(p))
+				elif kind == 'siblings':
+					got = 'ok ' + ','.join(n.full_path for n in nodes.siblings(p))
+				elif kind == 'parent':
+					got = 'ok ' + nodes.parent(p).full_path
+				else:
+					got = 'ok ' + nodes.ancestor(p, tag).full_path
+			except Exception as e:  # noqa: BLE001
+				got = exc_enum(e)
+			want = expect(kind, p, tag)
+			if got != want:
+				bad = f'{kind}({p}{", " + tag if kind == "ancestor" else ""}) = {got!r} after {len(history) - 1} earlier queries; the tree says {want!r}'
+				break
+		res.cases += 1
+		seen.add(trees.dict_sexp(t))
+		if bad:
+			res.findings.append(Finding(key='query-disagrees-with-tree', what=bad, replay={'sexp': trees.dict_sexp(t), 'resolvable': resolvable, 'history': history}))
+			break
+		if len(res.samples) < 2:
+			res.samples.append({'entries': len(paths), 'history': history[:4]})
+	res.distinct = len(seen)
+	assert pset is not None
+	return res
+
+
 # ---------------------------------------------------------------------------------------------
 
 
 STATEMENTS = {
-	'pluck_pathfy': 'for every tree t and every (p, e) in full_pathfy(t): pluck(t, p) = e (abstract element paths)',
-	'pluckS_pathfyS': 'the same on the string paths the Python builds, for trees whose tags are non-empty and free of . [ ]',
-	'paths_nodup / count': 'paths are pairwise distinct and as many as entries: addressing is a bijection',
-	'codec': 'decoding the joined path string gives back the element list (tags non-empty, free of . [ ])',
-	'ids_preorder': 'EntryCache ids are the pre-order (document order) ranks',
-	'resolve_order': 'the class returned for a path after any sequence of earlier queries equals the cache-free choice, for every feature function',
+	'pluck_pathfy': 'for every tree t and every (p, e) in full_pathfy(t): pluck(t, p) = e (abstract element paths; repeated, unique and empty tags)',
+	'paths_nodup': 'for every tree the element paths of full_pathfy(t) are pairwise distinct',
+	'count': 'for every tree full_pathfy(t) has exactly size(t) paths (with paths_nodup and pluck_pathfy: positions <-> paths is a bijection)',
+	'codec_int': 'int(str(n)) = n for every natural n (index part of a path element)',
+	'codec_elem': '__break_tag(encode(el)) = (el.tag, el.index or -1) for every element whose tag is non-empty and free of . [ ]',
+	'codec_path': 'DSN.elements(DSN.join(encoded elements)) = the encoded elements, for every path of well-formed tags',
+	'codec_inj': 'the path encoder is injective on paths of well-formed tags (decode(encode p) = p)',
+	'pathfyS_encoded': 'the (key, entry) insertions full_pathfy performs on strings are the abstract enumeration with every path encoded (WfTags t)',
+	'keys_nodup': 'the string keys of full_pathfy(t) are pairwise distinct (WfTags t)',
+	'fullPathfy_encoded': 'the dict full_pathfy(t) returns loses no insertion and keeps pre-order: it equals the encoded abstract enumeration (WfTags t)',
+	'countS': 'full_pathfy(t) on strings has exactly size(t) keys (WfTags t)',
+	'pluckS_pathfyS': 'headline: for every (s, e) in full_pathfy(t) on strings, pluck(t, s) = e (WfTags t)',
+	'ids_preorder': 'EntryCache.index_of(s) = i whenever (s, e) is the i-th pair of full_pathfy(t): ids are pre-order (document order) ranks',
+	'cache_by': 'EntryCache.by(s) returns e for every (s, e) of full_pathfy(t)',
+	'children_agree': 'Nodes.children(p) (paths before resolution) on the cache Nodes.__init__ builds = the paths p.<element of child i> in child order, for the entry at p; [] for tokens / empty entries (WfTags t, any table)',
+	'children_entries': 'the i-th child element is the one full_pathfy gave child i, and EntryCache.by at that child path returns child i',
+	'parent_nearest': 'Nodes.parent(p) = the nearest proper prefix of p whose last tag is resolvable, Errors.NodeNotFound when there is none (any table)',
+	'parent_of_child': 'children and parent agree: the parent of every child path of p is p when the tag of p is resolvable',
+	'siblings_agree': 'Nodes.siblings(p) = Nodes.children(p without its last element) for every non-root enumerated p',
+	'siblings_root': 'Nodes.siblings(root) raises Errors.NodeNotFound',
+	'ancestor_nearest': 'Nodes.ancestor(p, tag) = the prefix of p ending at the nearest element (from the end, own element included) with that tag; ValueError when no element has it',
+	'resolve_order': 'for every World (tree, cache, class table, features) and every instance cache reachable by any sequence of successful Nodes.by resolutions, the class returned for p equals the cache-free first-accepting-class choice classOf',
+	'resolve_order_queries': 'the same for an explicit list of earlier Nodes.by queries (failing ones included) starting from the empty instance cache',
 }
 
 
@@ -474,12 +576,18 @@ def run(ctx: Ctx) -> int:
 	with ctx.timed('correspondence'):
 		streams = [stream_random(ctx), stream_real(ctx)]
 	with ctx.timed('search'):
-		searches = [search_laws(ctx), search_resolve_order(ctx)]
+		searches = [search_laws(ctx), search_queries(ctx), search_resolve_order(ctx)]
 	return common.finish(ctx, proof, streams, searches,
 		statements=STATEMENTS,
 		partial={
-			'proved': 'bijection (pluck∘pathfy, nodup, count), codec, ids, resolver order-independence on the model',
-			'correspondence_only': 'the real match_feature functions are pure functions of (tree, path) — validated by query permutations on real modules',
+			'proved': 'each entry has exactly one full path and lookup returns that entry (pluck_pathfy, paths_nodup, count on element paths; '
+				'pathfyS_encoded, keys_nodup, fullPathfy_encoded, countS, pluckS_pathfyS on the strings, through codec_int/elem/path/inj); '
+				'ids follow document order (ids_preorder, cache_by); children / parent / siblings / ancestor agree with the tree and with each other '
+				'(children_agree, children_entries, parent_nearest, parent_of_child, siblings_agree, siblings_root, ancestor_nearest — on the path lists before class resolution); '
+				'the node class is independent of earlier queries (resolve_order, resolve_order_queries) — all on the model, for all trees / worlds',
+			'correspondence_only': 'the real match_feature functions are pure functions of (tree, path) — validated by query permutations on real modules; '
+				'Nodes.expand and the node-instance memoisation inside Nodes are not modelled',
+			'search_only': 'none',
 		},
 		assumptions=[
 			'tags are non-empty and free of ".", "[" and "]" (true of every lark rule/terminal name and of __empty__)',
